@@ -181,7 +181,7 @@ def _rand_vcf_case(rng):
     seq = G.rand_seq(rng, 40)
     for ci in range(rng.choice([1, 1, 2, 3])):
         chrom = f"chr{ci + 1}"
-        sets = rng.sample([1, 2, 5, 18, 77, 1000], rng.choice([0, 1, 2, 3]))
+        sets = rng.sample([0, 0, 1, 2, 5, 18, 77, 1000], rng.choice([0, 1, 2, 3]))   # 0 is a legal phase set (VCF: non-negative integer)
         pos = 0
         for _ in range(rng.choice([1, 2, 3, 5, 8])):
             pos += rng.choice([1, 2, 3, 5])
